@@ -263,8 +263,10 @@ def run(run, tier):
         L.regen_rhs('all'); table = L.sigs()
     except L.RhsRefused as e:
         broken.append(('translator', 'translate/rhs2v.py refuses the current EoN/analytic.py: %s' % e))
-    props = C.check_props('C07') if table else {'ok': False, 'theorems': [], 'axioms': {}, 'log': 'translator refused'}
-    if table and not props['ok']:
+    from . import rhs2_spec as S2
+    regen2 = S2.regen_phase()
+    props = (C.check_props('C07') if regen2 is None else S2.REFUSED_PROPS(regen2)) if table else {'ok': False, 'theorems': [], 'axioms': {}, 'log': 'translator refused'}
+    if table and not props['ok'] and regen2 is None:
         where = ''
         mm = re.findall(r'File "\./((?:Proofs|Props|Model|Gen)/[A-Za-z0-9]+\.v)", line (\d+)', props.get('log', ''))
         if mm:
@@ -291,7 +293,7 @@ def run(run, tier):
                 m = tie['mism'][0]
                 broken.append(('tie', 'translation is not faithful at a point: %s args=%s python=%s model=%s (%d of %d points)' % (m[0], m[1], m[2], m[3], len(tie['mism']), tie['n'])))
     found = 0; stats = {}
-    blk = S2.check_block(run, EoN, 'C07', tier, report)           # 2-D / node-level systems: own RNG stream, does not shift the cases below
+    blk = S2.check_block(run, EoN, 'C07', tier, report, regen2)           # 2-D / node-level systems: own RNG stream, does not shift the cases below
     broken += blk['broken']; found += blk['found']; n_eval += blk['n_eval']; n_distinct += blk['n_distinct']; samples += blk['samples']; dist.update(blk['dist'])
     sp = spec_points(rng, 60 if thorough else 12)
     for p in sp:
@@ -338,9 +340,9 @@ def run(run, tier):
                                                               'initial conditions built by the *_from_graph wrappers'],
                                'proved_over_hand_written_model': ['individual-based -> homogeneous mean-field (SIS, SIR)', 'pair-based -> homogeneous pairwise (SIS, SIR)',
                                                                   'heterogeneous pairwise on one degree class -> homogeneous pairwise (SIS, SIR)'],
-                               'hand_written_model': 'coq/Model/Rhs2D.v (component rhs2), tied by point evaluation',
+                               'hand_written_model': 'coq/Model/Rhs2D.v (component rhs2): proved equal to the definitions generated from the source (Props: *_generated_*), both tied by point evaluation',
                                'cited': ['Picard-Lindeloef uniqueness', 'chain rule for psihat\'(theta(t)) and S_k = N c_k theta^k in the _partial theorems'],
-                               'translator': 'translate/rhs2v.py (fail-closed); generated file coq/Gen/Rhs.v'})
+                               'translator': 'translate/rhs2v.py (fail-closed); generated file coq/Gen/Rhs.v; translate/rhs2d2v.py (fail-closed); generated file coq/Gen/Rhs2.v'})
     run.assumptions += ['Model/Rhs2D.v is a hand-written model of the 2-D / node-level right-hand sides; its precondition is index_of_node = enumerate(nodelist) over a simple graph (what every caller in analytic.py builds)',
                         'numpy elementwise/broadcast/slice/dot semantics as modelled in Model/Vec.v (tied by point evaluation)',
                         'scipy.integrate.odeint / ode return the ODE solution on the grid to tolerance']
